@@ -245,7 +245,7 @@ pub fn case_strategy() -> BoxedStrategy<PosCase> {
 }
 
 fn run(c: &mut Ctx) {
-    let cases = c.tier.pick(60_000, 1_500_000);
+    let cases = c.tier.pick(240_000, 3_000_000);
     let mut worst = 0.0f64;
     let r = c.proptest(cases, case_strategy(), |c, pc, counting| {
         let v = check(pc)?;
